@@ -50,6 +50,10 @@ CLAIMED = {
          "Exploration. Generated frame tables (CIE versions, formats, address sizes, alignment factors incl. 0 and extremes, augmentations, pointer encodings, duplicate and unreferenced CIEs, every CallFrameInstruction variant, code offsets straddling every advance_loc width boundary, on- and off-grid offsets) are written as .debug_frame and .eh_frame and read back: CIE parameters, FDE ranges, personality/LSDA pointers, CIE de-duplication, padding to the address size, and the evaluated unwind rows must equal the state machine run on the supplied instruction list; unencodable requests must be refused. Both build profiles.",
          "Trusts harness/src/cfimodel.rs for the row semantics and gimli's frame reader (itself checked against the same model in C05/C06) for decoding. Representability limits of pointer formats may be refused.",
          "DESIGN.md §4 C14"),
+ 'C11': ("proptest random unit tables requested through gimli::write; round trip write->read with the request model as oracle, compared by meaning (reference targets by identity marker, strings by content, lists by resolved ranges, expressions by decoded operations)",
+         "Exploration. Generated tables of 1-4 units with every AttributeValue variant, boundary payloads around the size-model steps, forward/backward/cross-unit references, reserved-then-added and reserved-never-added entries, base types anywhere among the root's children, sibling flags, shared strings and lists are written and read back; the forest, every attribute's meaning and every reference target must equal the request, and unencodable requests must be refused. The writer's internal offset-prediction assertions count as violations in the dev profile.",
+         "Trusts gimli's reader for decoding (checked against independent models in C02/C03/C07/C08) and the request model in harness/src/wmodel.rs. Data4/Data8 are not paired with names that are section offsets in DWARF 2/3.",
+         "DESIGN.md §4 C11"),
 }
 NOT_YET = "check not built yet in this session (machinery is being extended property by property; see DESIGN.md §4)"
 
